@@ -56,6 +56,11 @@ inductive Field where
   | pubkey              -- *btcec.PublicKey, 33 bytes, must parse
   | sigs                -- []Sig: u16 count, count × 64 bytes
   | deliveryAddr        -- DeliveryAddress: u16 length ≤ 34 + bytes
+  | alias               -- NodeAlias: 32 bytes, must be valid UTF-8, copied verbatim
+  | features            -- RawFeatureVector: u16 length + bit vector; re-encoded with the minimal
+                        -- number of bytes (bit indices are `uint16`: they wrap modulo 2^16)
+  | addrs               -- []net.Addr: u16 length + address descriptors (replay only, no theorem)
+  deriving DecidableEq
 
 inductive Tail where
   | ignore              -- Decode reads no extension field; trailing bytes are dropped
@@ -64,6 +69,7 @@ inductive Tail where
                         -- (ParseAndExtractCustomRecords / MergeAndEncode, or a merging EncodeMessageExtraData)
   | tlvKnownOnly        -- tail must be canonical; only records of known types are written back
                         -- (EncodeMessageExtraData overwriting ExtraData)
+  deriving DecidableEq
 
 structure Schema where
   fields : List Field
@@ -83,6 +89,62 @@ def decPrefixed (mult maxLen : Nat) (b : Bytes) : Option (Bytes × Bytes) :=
   else if (b.drop 2).length < mult * beNat (b.take 2) then none
   else some (b.take (2 + mult * beNat (b.take 2)), (b.drop 2).drop (mult * beNat (b.take 2)))
 
+/-! #### feature vectors (`RawFeatureVector.Decode/Encode`) -/
+
+def orBytes : Bytes → Bytes → Bytes
+  | [], ys => ys
+  | xs, [] => xs
+  | x :: xs, y :: ys => (x ||| y) :: orBytes xs ys
+
+/-- little-endian byte string folded onto its first 8192 bytes: `FeatureBit` is a `uint16`, so
+    bit `i` of an over-long vector sets feature `i mod 65536`. -/
+def wrapLE : Nat → Bytes → Bytes
+  | 0, le => le
+  | fuel + 1, le => if le.length ≤ 8192 then le else orBytes (le.take 8192) (wrapLE fuel (le.drop 8192))
+
+/-- minimal big-endian re-encoding of a decoded feature vector. -/
+def featNorm (data : Bytes) : Bytes :=
+  ((wrapLE 9 data.reverse).reverse).dropWhile (· == 0)
+
+/-! #### address lists (`ReadElement *[]net.Addr`, `WriteNetAddrs`) -/
+
+/-- payload length after the descriptor byte for the fixed-size address types. -/
+def addrFixedLen (t : UInt8) : Option Nat :=
+  if t == 1 then some 6 else if t == 2 then some 18 else if t == 3 then some 12
+  else if t == 4 then some 37 else none
+
+/-- walk the descriptors of an address blob and re-encode it: type-0 padding descriptors are
+    dropped, tcp4/tcp6/tor-v2/tor-v3/DNS descriptors are kept verbatim, a descriptor of an unknown
+    type keeps the whole remainder (`OpaqueAddrs`).  `none`: a descriptor is truncated. -/
+def normAddrs : Nat → Bytes → Option Bytes
+  | 0, _ => none
+  | _ + 1, [] => some []
+  | fuel + 1, t :: rest =>
+    if t == 0 then normAddrs fuel rest
+    else match addrFixedLen t with
+      | some n =>
+        if rest.length < n then none
+        else (normAddrs fuel (rest.drop n)).map fun tl => t :: rest.take n ++ tl
+      | none =>
+        if t == 5 then
+          match rest with
+          | [] => none
+          | hl :: r2 =>
+            if r2.length < hl.toNat + 2 then none
+            else (normAddrs fuel (r2.drop (hl.toNat + 2))).map fun tl =>
+              t :: hl :: r2.take (hl.toNat + 2) ++ tl
+        else some (t :: rest)
+
+/-- u16-length-prefixed blob re-encoded through `norm`. -/
+def decBlob (norm : Bytes → Option Bytes) (b : Bytes) : Option (Bytes × Bytes) :=
+  if b.length < 2 then none
+  else if (b.drop 2).length < beNat (b.take 2) then none
+  else match norm ((b.drop 2).take (beNat (b.take 2))) with
+    | none => none
+    | some d => some (beBytes 2 d.length ++ d, (b.drop 2).drop (beNat (b.take 2)))
+
+def utf8Ok (v : Bytes) : Bool := (ByteArray.mk v.toArray).validateUTF8
+
 /-- decode one field: re-encoded bytes and remaining input. -/
 def decField : Field → Bytes → Option (Bytes × Bytes)
   | .fixed n, b => if b.length < n then none else some (b.take n, b.drop n)
@@ -95,6 +157,11 @@ def decField : Field → Bytes → Option (Bytes × Bytes)
     else if pubkeyOk (b.take 33) then some (b.take 33, b.drop 33) else none
   | .sigs, b => decPrefixed 64 65535 b
   | .deliveryAddr, b => decPrefixed 1 34 b
+  | .alias, b =>
+    if b.length < 32 then none
+    else if utf8Ok (b.take 32) then some (b.take 32, b.drop 32) else none
+  | .features, b => decBlob (fun d => some (featNorm d)) b
+  | .addrs, b => decBlob (fun d => normAddrs (d.length + 1) d) b
 
 def decFields : List Field → Bytes → Option (Bytes × Bytes)
   | [], b => some ([], b)
@@ -156,6 +223,11 @@ def schemaOf (dropUnknown : Bool) (t : Nat) : Option Schema :=
   | 38 => some { fields := [.fixed 32, .deliveryAddr], tail := .tlvAll, known := [(8, kNonce)] } -- shutdown
   | 132 => some { fields := [.fixed 32, .fixed 64, .sigs], tail := .tlvAll,
                   known := [(2, kPartialSigNonce)], norm := [(2, normSigNonce)] } -- commit_sig
+  | 16 => some { fields := [.features, .features], tail := .tlvAll }             -- init
+  | 256 => some { fields := [.fixed 256, .features, .fixed 32, .fixed 8, .fixed 132],
+                  tail := .tlvAll }                                              -- channel_announcement
+  | 257 => some { fields := [.fixed 64, .features, .fixed 4, .fixed 33, .fixed 3, .alias, .addrs],
+                  tail := .tlvAll }                                              -- node_announcement
   | 265 => some { fields := [.fixed 32, .fixed 4, .fixed 4], tail := keepTail,
                   known := [(2, .fixed 4), (4, .fixed 4)] }                     -- gossip_timestamp_range
   | 39 => some { fields := [.fixed 32, .fixed 8, .fixed 64], tail := keepTail,
@@ -181,5 +253,45 @@ def modelMessage (b : Bytes) : Option Outcome :=
     match runSchema sc (b.drop 2) with
     | .reject => some .reject
     | .accept enc => some (.accept (b.take 2 ++ enc))
+
+/-! ### onion failures (`DecodeFailure` / `EncodeFailure`), replay only -/
+
+/-- payload size of the failure codes whose payload is absent or a fixed-size field
+    (`makeEmptyOnionError` + the `Serializable` implementations); `none`: the code carries a
+    channel_update / TLV payload (not modelled) or is not registered. -/
+def failPayload (code : Nat) : Option Nat :=
+  if [0x8001, 0x2002, 0x6002, 0x6003, 0x4008, 0x4009, 0x400a, 0x4010, 17, 21, 23].contains code
+  then some 0
+  else if [0xc004, 0xc005, 0xc006, 0xc018].contains code then some 32
+  else if code == 18 then some 4
+  else if code == 19 then some 8
+  else none
+
+def failRegisteredUnmodelled (code : Nat) : Bool :=
+  [0x1007, 0x100b, 0x100c, 0x100d, 0x100e, 0x1014, 0x400f, 0x4016].contains code
+
+/-- `DecodeFailure` then `EncodeFailure`: u16 length, inner message, u16 pad length, padding,
+    nothing after it, length + padding ≥ 256; the inner message is code + payload (surplus inner
+    bytes are ignored); `EncodeFailure` pads the inner message to 256 bytes with zeros. -/
+def modelFailure (b : Bytes) : Option Outcome :=
+  if b.length < 2 then some .reject else
+  let l := beNat (b.take 2)
+  let r1 := b.drop 2
+  if r1.length < l then some .reject else
+  let inner := r1.take l
+  let r2 := r1.drop l
+  if r2.length < 2 then some .reject else
+  let padLen := beNat (r2.take 2)
+  if (r2.drop 2).length != padLen then some .reject else
+  if l + padLen < 256 then some .reject else
+  if inner.length < 2 then some .reject else
+  let code := beNat (inner.take 2)
+  match failPayload code with
+  | some n =>
+    if (inner.drop 2).length < n then some .reject else
+    let msg := inner.take (2 + n)
+    some (.accept (beBytes 2 msg.length ++ msg ++ beBytes 2 (256 - msg.length) ++
+      List.replicate (256 - msg.length) 0))
+  | none => if failRegisteredUnmodelled code then none else some .reject
 
 end LndModel.C10.Wire
